@@ -35,8 +35,12 @@ def describe(prog):
             "components": {n: {"template": G.d_tpls(cd["tpl"]), "data": cd["data"]} for n, cd in prog["lib"]}}
 
 
-def coq_eval(tag, case_type, fn, terms, shard=120):
-    return C.coq_eval_cases("C01M", tag, IMPORTS, case_type, fn, terms, shard=shard) if terms else []
+def coq_eval(tag, case_type, fn, terms, shard=None):
+    if not terms:
+        return []
+    if shard is None:
+        shard = max(8, len(terms) // C.NCPU + 1)     # one shard per job
+    return C.coq_eval_cases("C01M", tag, IMPORTS, case_type, fn, terms, shard=shard)
 
 
 def check_batch(chk, progs, tag, key, ms_must_agree):
@@ -110,26 +114,83 @@ def check_batch(chk, progs, tag, key, ms_must_agree):
     return len(bad), len(bad2)
 
 
+CORPUS = os.path.join(C.VERIF, "corpus", "C01M")
+
+
 def corpus_programs():
-    return c01.corpus_programs()
+    """C01's corpus (M must agree with S there) and C01M's own witnesses (M must agree with the implementation; S differs)"""
+    own = []
+    if os.path.isdir(CORPUS):
+        for f in sorted(os.listdir(CORPUS)):
+            if f.endswith(".json"):
+                own.append(c01.fix_prog(json.load(open(os.path.join(CORPUS, f)))))
+    return c01.corpus_programs(), own
+
+
+def check_fragment(chk, progs, tag):
+    """programs rewritten into the fragment of the theorem mech_refines_sem_isolated_partial: the statement of the theorem
+    is evaluated on them (wf_prog p -> M p = S p) and they are run on the implementation like every other program"""
+    import c01m_util as U
+    frag = [U.fragmentize(p) for p in progs]
+    pterms = [G.c_prog(p) for p in frag]
+    notwf = set(coq_eval(tag + "w", "prog", "wf_prog", pterms))
+    bad = coq_eval(tag + "x", "prog", "check_wf_ms", pterms)
+    chk.dist["fragment:programs"] += len(frag)
+    chk.dist["fragment:wf_prog"] += len(frag) - len(notwf)
+    chk.dist["fragment:wf-and-M-differs-from-S"] += len(bad)
+    for i in bad[:3]:
+        chk.disagree("a program satisfying wf_prog on which M and S differ (contradicts the theorem: broken build?)",
+                     dict(describe(frag[i]), program=frag[i]))
+    wf = [p for i, p in enumerate(frag) if i not in notwf]
+    check_batch(chk, wf, tag, "fragment/isolated", True)
+    return len(wf)
 
 
 def run(tier, seed):
     import djsetup
+    import gen_constants
     djsetup.setup()
     djsetup.patch_ids()
+    gen_constants.generate(["C01M"])
     chk = C.Check("C01M", tier, seed)
     chk.prove()
-    n = 1500 if tier == "thorough" else int(os.environ.get("C01M_N", "260"))
-    check_batch(chk, corpus_programs(), "corpus", "corpus", True)
+    n = 1200 if tier == "thorough" else int(os.environ.get("C01M_N", "220"))
+    shared, own = corpus_programs()
+    check_batch(chk, shared, "corpus", "corpus", True)
+    check_batch(chk, own, "corpm", "corpus-C01M", False)
     # (tag, mode, collide, only, M-vs-S must agree)
     BATCHES = [("isod", "isolated", 0.0, 0.12, True), ("djad", "django", 0.0, 0.0, True), ("djao", "django", 0.0, 0.3, False),
                ("isoc", "isolated", 0.35, 0.12, False), ("djac", "django", 0.35, 0.12, False)]
+    keep = []
     for tag, mode, collide, only, must in BATCHES:
         progs = list(gen_programs(chk.rng, n, mode, collide, 0.3, only))
         check_batch(chk, progs, tag, "%s/%s%s" % ("collide" if collide else "distinct", mode, "+only" if (only and mode == "django" and not collide) else ""), must)
-    chk.assumptions = []
-    return chk.finish(rule="", explanation="")
+        if tag in ("isod", "djad"):
+            keep.extend(progs[: n // 2])
+    nwf = check_fragment(chk, keep, "frag")
+    chk.assumptions = [
+        "programs are drawn from the calculus of coq/Core/Syntax.v by harness/genprog.py (shared with C01/C03/C05); templates emit text "
+        "without HTML elements; <!-- _RENDERED --> markers are stripped; expression evaluation of Django's engine (variables, dot lookup, "
+        "truthiness, autoescaped printing, for over lists only) is modelled as in Core/Sem.v, not verified",
+        "M renders children in place (deferred rendering = C14 PostRender); provide_cache entries are never deleted in M (their lifetime is "
+        "C05's Provide model); CopiedDict sharing between snapshots is not represented (layers are only written while freshly pushed)",
+        "runs that pass a SlotRef / internal object across a tag boundary as a value, or render a SlotRef after a deferred-render boundary, "
+        "leave the modelled fragment (MUnsup): counted per batch, never compared",
+        "exception classes are compared exactly when the program has at most one potential error source (else only 'raises'); an "
+        "implementation RecursionError must correspond to M running out of fuel",
+    ]
+    return chk.finish(
+        rule="genprog programs, %d per batch, small ones first: distinct names isolated / django / django with `only`; colliding names "
+             "(collide=0.35) isolated / django; provide/inject in every second program; plus C01's corpus, C01M's witnesses, and %d programs "
+             "rewritten into the fragment of the refinement theorem (wf_prog true). implementation-vs-M must agree in EVERY batch; M-vs-S must "
+             "agree in the distinct-name isolated, django (no `only`) and fragment batches and is counted elsewhere. Non-trivial = has a fill, "
+             "a slot and a nested component. Distinct = distinct program text." % (n, nwf),
+        explanation="theorems of Props/C01M.v re-checked (ctx_restored for all programs and both modes; component_context_cache privacy; M = S "
+                    "for the isolated fragment, no bounds); M evaluated by vm_compute inside Coq on every program and compared with the "
+                    "implementation's output and with S; wf_prog p -> M p = S p also evaluated as a test on the fragment batch.",
+        extra_trusted=["modelled, not verified: Django's template engine for text/variables/if/for/with; Python list insert/pop semantics "
+                       "(Core/CtxStack.v py_insertZ/py_popZ); deferred rendering abstracted to in-place rendering (C14 PostRender)",
+                       "harness/c01m_util.py fragmentize (only produces inputs; wf_prog is decided inside Coq)"])
 
 
 def replay(path):
